@@ -338,7 +338,36 @@ def r07_10(ctx):
             ctx.ob('R07.10', 'Pool.%s:%s.%s' % (fi.name, helper, what), ok, fi, c, why)
 
 
+def r07_12(ctx, rule='R07.12'):
+    ctx.rule(rule, 'jobs queued before close() still find a worker: while the pool is closing and jobs are pending, '
+                   'somebody keeps replacing workers that exit (task quota, memory limit)', floor=1)
+    m = ctx.model
+    sb = m.func('pool:Supervisor.body')
+    fs = m.func('pool:ResultHandler.finish_at_shutdown')
+    keeps = []
+    # (a) the supervisor's steady loop goes on after close() while jobs are pending
+    for lp in sb.cfg.where(lambda n: n.kind == 'loop'):
+        if not q.calls(sb, 'self.pool._maintain_pool'):
+            continue
+        t = ast.unparse(lp.stmt.test)
+        if any(q.inside(sb, n, lp.stmt.body) for (n, c) in q.calls(sb, 'self.pool._maintain_pool')) and \
+                ('_cache' in t or 'cache' in t) and 'TERMINATE' in t:
+            keeps.append(lp)
+    # (b) or the shutdown drain of the result handler refills
+    for (n, c) in q.calls(fs, lambda t: t.endswith('_maintain_pool') or t.endswith('_repopulate_pool')):
+        keeps.append(n)
+    refill = m.func('pool:Pool._repopulate_pool')
+    stops = [n for n in refill.cfg.where(lambda n: n.kind == 'stmt' and isinstance(n.ast, ast.Return))
+             if q.has_guard(refill, n, q.eq_text('self._state', 'RUN'), False)]
+    ok = bool(keeps) and not stops
+    ctx.ob(rule, 'closing-pool-still-replaces-exited-workers', ok, sb, None,
+           'the refill keeps running until the cache is drained' if ok else
+           'close() stops the supervisor and the refill returns unless the pool is in RUN: once the last worker has '
+           'used up its task quota the jobs still queued never run, join() returns with them unresolved')
+
+
 def run(ctx):
+    r07_12(ctx)
     r07_10(ctx)
     # join() must not wait for the time-limit scanner, which by design runs on until terminate()
     from .c05 import r05_7
